@@ -1,7 +1,7 @@
 ----------------------------- MODULE MC_Routing -----------------------------
 (* All queues-per-thread configurations for small numbers of queues / threads (C17): model-level
    checks of the routing functions and the configurations as stimuli. *)
-EXTENDS Routing, Json, TLC
+EXTENDS Routing, RoutingOpsAp, Json, TLC
 CONSTANTS MaxQ, MaxT
 VARIABLE done
 
@@ -25,6 +25,13 @@ OwnerUnique == \A c \in Configs : \A q \in 0..(c.nq - 1) :
 RankIsIndexInSlice == \A c \in Configs : \A t \in DOMAIN c.masks : \A q \in SliceOf(c.masks[t], c.nq) :
                         /\ Rank(c.masks[t], q) < Cardinality(SliceOf(c.masks[t], c.nq))
                         /\ QueueOf(c.masks[t], c.nq, Rank(c.masks[t], q)) = q
+\* the annotated copies of the routing functions that Apalache checks for larger bounds (RoutingAp.tla) are the same functions
+ApAgree == \A c \in Configs :
+             LET nt == Len(c.masks)  m == [t \in 1..nt |-> c.masks[t]] IN
+             /\ \A q \in 0..c.nq : ApOwner(m, nt, q) = Owner(c.masks, q)
+             /\ \A t \in 1..nt : /\ ApSliceOf(m[t], c.nq) = SliceOf(c.masks[t], c.nq)
+                                  /\ \A q \in 0..c.nq : ApRank(m[t], q) = Rank(c.masks[t], q)
+                                  /\ \A e \in 0..c.nq : ApQueueOf(m[t], c.nq, e) = QueueOf(c.masks[t], c.nq, e)
 \* event ids of queues never collide with the exit id
 NoExitCollision == \A c \in Configs : \A t \in DOMAIN c.masks : \A q \in SliceOf(c.masks[t], c.nq) : Rank(c.masks[t], q) < ExitId(c.nq)
 =============================================================================
